@@ -20,7 +20,6 @@ EXHAUSTIVE = True
 EXHAUSTIVE_PART = 'type x byte order x shape x language x path mode'
 ASSUMPTIONS = ['foreign-language semantics are our transcription of the languages\' documentation (DESIGN Appendix A); no '
                'R/Matlab/Scilab/Julia/IDL/Mathematica/Maple interpreter exists in the sandbox',
-               'Scilab complex results are compared after squeeze() (the generated code itself squeezes)',
                'R int32 minimum (read as NA) is avoided in the values; integer overflow semantics are not modelled']
 ANCHORS = ['readcodearray:readcode', 'readcodearray:readcodenumpy', 'readcodearray:readcodenumpymemmap',
            'readcodearray:readcodepython', 'readcodearray:readcoder', 'readcodearray:readcodematlab',
@@ -218,12 +217,6 @@ def check_foreign(res, lang, code, resolve, token, stored, case):
         res.fail(f'wrong-denotation:{lang}', f'{lang}: {e}\n{code}', lang=lang, **case)
         return
     expect = stored if lang in langsem.ROW_MAJOR else stored.T
-    if spec.get('scilab_complex') and expect.ndim > 1:
-        expect = np.squeeze(expect)
-        if expect.ndim == 0:
-            expect = expect.reshape(1)
-        if out.ndim == 0:
-            out = out.reshape(1)
     if not same_dtype(out.dtype, stored.dtype):
         res.fail(f'wrong-type:{lang}:{stored.dtype.name}',
                  f'{lang} code reads {out.dtype.str}, the array stores {stored.dtype.str}\n{code}', lang=lang, **case)
